@@ -10,6 +10,20 @@ type chunkedReader struct {
 	inner         io.Reader
 	chunkRemain   int
 	notFirstChunk bool
+
+	// sawFinalChunk is set once the terminating zero-length chunk has been
+	// read; only then is the end of the inner stream a clean end.
+	sawFinalChunk bool
+}
+
+// frameErr maps the end of the inner stream in the middle of the chunk framing
+// to io.ErrUnexpectedEOF, so that a truncated stream is not mistaken for a
+// complete one, unless the final chunk has already been seen.
+func (r *chunkedReader) frameErr(err error) error {
+	if err == io.EOF && !r.sawFinalChunk {
+		return io.ErrUnexpectedEOF
+	}
+	return err
 }
 
 func newChunkedReader(inner io.Reader) *chunkedReader {
@@ -34,7 +48,12 @@ func (r *chunkedReader) Read(p []byte) (n int, err error) {
 			sizeToRead -= innerN
 			n += innerN
 			if err != nil {
-				return n, err
+				if innerN > 0 && err == io.EOF {
+					// data returned together with EOF; the missing rest of
+					// the chunk is noticed by the next call.
+					return n, nil
+				}
+				return n, r.frameErr(err)
 			}
 		} else if r.chunkRemain > 0 {
 			// read until this chunk ends
@@ -43,7 +62,10 @@ func (r *chunkedReader) Read(p []byte) (n int, err error) {
 			n += innerN
 			sizeToRead -= innerN
 			if err != nil {
-				return n, err
+				if innerN > 0 && err == io.EOF {
+					return n, nil
+				}
+				return n, r.frameErr(err)
 			}
 		} else {
 			if !r.notFirstChunk {
@@ -53,19 +75,22 @@ func (r *chunkedReader) Read(p []byte) (n int, err error) {
 				// skip last chunk's b"\r\n"
 				_, err = io.CopyN(ioutil.Discard, r.inner, 2)
 				if err != nil {
-					return n, err
+					return n, r.frameErr(err)
 				}
 			}
 			// read next chunk header
 			chunkSize := 0
 			_, err = fmt.Fscanf(r.inner, "%x;", &chunkSize)
 			if err != nil {
-				return n, err
+				return n, r.frameErr(err)
 			}
 			r.chunkRemain = chunkSize
 			_, err = io.CopyN(ioutil.Discard, r.inner, 16+64+2) // "chunk-signature=" + sizeOfHash + "\r\n"
 			if err != nil {
-				return n, err
+				return n, r.frameErr(err)
+			}
+			if chunkSize == 0 {
+				r.sawFinalChunk = true
 			}
 		}
 	}
